@@ -76,10 +76,17 @@ def base_library(i):
             "@a{dup, author = {Doe,}, t = {x}}\n@b{dup, author = {A B}}\n@c{ok, author = {C D}}\n@c{ok, author = {E F}}",
             append_middleware=[mw.SeparateCoAuthors(), mw.SplitNameParts()],
         )
+    if i >= 1000:  # libraries of n = i - 1000 small blocks (the sizes a chunked or parallel copy would switch at)
+        n = i - 1000
+        parts = ['@string{s = "v"}', "% c", "@a{dup, t = {x}}", "@a{dup, t = {y}}"]
+        parts += ["@article{k%d, author = {A%d B and C D}, title = {T %d}, month = %s, year = %d}" % (j, j, j, ("jan", "3", '"May"')[j % 3], 1900 + j) for j in range(n - 5)]
+        parts += ["@broken{zz, a b}"]
+        return bibtexparser.parse_string("\n".join(parts) + "\n")
     raise IndexError(i)
 
 
 NLIBS = len(DOCS) + 9
+SCALE = {"quick": [255, 256, 257, 300, 513, 1000, 1025], "thorough": [255, 256, 257, 300, 513, 1000, 1025, 2049, 4097, 16385]}
 
 
 def pool():
@@ -209,7 +216,7 @@ def bounds(tier):
 
 
 def shards(tier):
-    return [("stacks", li, mi) for li in range(NLIBS) for mi in range(len(POOL))] + [("write", li) for li in range(NLIBS)] + [("direct", li) for li in range(NLIBS)] + [("factories", 0)] + [("spelled", li) for li in range(NLIBS)] + [("leak", mi) for mi in range(len(POOL))]
+    return [("stacks", li, mi) for li in range(NLIBS) for mi in range(len(POOL))] + [("write", li) for li in range(NLIBS)] + [("direct", li) for li in range(NLIBS)] + [("factories", 0)] + [("spelled", li) for li in range(NLIBS)] + [("leak", mi) for mi in range(len(POOL))] + [("scale", n, part) for n in SCALE[tier] for part in range(4)]
 
 
 def run_stack(li, idxs, acc, judged_prefixes):
@@ -421,6 +428,15 @@ def run_shard(shard, tier, acc):
         return
     if shard[0] == "spelled":
         run_spelled(shard[1], acc)
+        return
+    if shard[0] == "scale":
+        # every middleware of the pool as a one-stage stack on a library of n blocks, and the write laws
+        _, n, part = shard
+        assert len(base_library(1000 + n).blocks) == n
+        for mi in range(part, len(POOL), 4):
+            run_stack(1000 + n, (mi,), acc, set())
+        if part == 0:
+            run_write(1000 + n, acc)
         return
     if shard[0] == "leak":
         # one long-lived instance over all libraries (forwards and backwards) must behave like fresh instances
